@@ -11,8 +11,8 @@
    operation in all three shipped backends), [gen_cstor] ... (items of each worker's `async with`, in
    source order). *)
 From Coq Require Import ZArith List Bool String Arith.
-From Verif Require Import Lib.Sx Lib.PyStr Lib.Facts Model.Session Model.Faults Model.FaultsCheck.
-From Verif Require Import Gen.Dispatch Gen.Faultsites Proofs.GenTable Proofs.GenFaults Proofs.Faults Proofs.FaultsStep Proofs.FaultsUsable.
+From Verif Require Import Lib.Sx Lib.PyStr Lib.Facts Model.Session Model.Faults Model.FaultsCheck Model.FaultsRound.
+From Verif Require Import Gen.Dispatch Gen.Faultsites Proofs.GenTable Proofs.GenFaults Proofs.Faults Proofs.FaultsStep Proofs.FaultsUsable Proofs.FaultsRound.
 Import ListNotations.
 Open Scope list_scope.
 Open Scope nat_scope.
@@ -156,6 +156,44 @@ Proof.
                                                    gen_cretr gen_clist gen_cmlsd blk gen_params_ok).
 Qed.
 Print Assumptions C13_faults_never_end_session.
+
+(* ------------------------------------------------------------------ several tasks done in one wake-up *)
+(* `asyncio.wait(.., FIRST_COMPLETED)` hands the dispatcher EVERY task of the session that is done at that
+   moment: a worker that raised, another command that raised, parse_command with the next line.  Closed
+   obligation: each `task.result()` stands under its own try inside the loop over the done tasks. *)
+Theorem C13_round_obligation : dispatcher_try_per_task = true.
+Proof. vm_compute. reflexivity. Qed.
+Print Assumptions C13_round_obligation.
+
+Definition gen_react_ok : react_ok gen_react = true :=
+  proj1 (proj2 (proj2 (proj2 (proj2 (proj2 C13_source_obligations))))).
+
+(* one wake-up with ANY finished tasks in ANY order (none of which ends the session by itself: a handler
+   returning False, a non-PathIOError): every task that raised a PathIOError gets its own 451, every command
+   line is dispatched (unknown verb: 502) and parse_command re-armed for each, the dispatcher says nothing
+   else and stays in its loop *)
+Theorem C13_same_wakeup_contained : forall done,
+  forallb (fun o => negb (is_ender o)) done = true ->
+  let st := round gen_react dispatcher_try_per_task done in
+  n451 (r_codes st) = cnt is_pio done /\ n502 (r_codes st) = cnt is_unknown_line done /\
+  List.length (r_codes st) = cnt is_pio done + cnt is_unknown_line done /\
+  r_spawned st = cnt is_known_line done /\ r_reparse st = cnt is_line done /\ r_alive st = true.
+Proof. rewrite C13_round_obligation. exact (round_contained gen_react gen_react_ok). Qed.
+Print Assumptions C13_same_wakeup_contained.
+
+(* why the obligation matters: with ONE try around the collection of all results, two failures get one
+   451, and a failure next to the next command line drops the line and never re-arms parse_command *)
+Theorem C13_batch_try_drops :
+  n451 (r_codes (round gen_react false [ORaise true; ORaise true])) = 1 /\
+  r_reparse (round gen_react false [ORaise true; OLine true]) = 0 /\
+  r_spawned (round gen_react false [OLine true; ORaise true]) = 0.
+Proof. exact (batch_drops gen_react gen_react_ok). Qed.
+Print Assumptions C13_batch_try_drops.
+
+Example C13_example_wakeup :
+  let st := round gen_react dispatcher_try_per_task [ORaise true; OLine true; ORaise true; OLine false; OBool true] in
+  r_codes st = [c451; c451; code "502"] /\ r_spawned st = 1 /\ r_reparse st = 2 /\ r_alive st = true.
+Proof. vm_compute. repeat split. Qed.
 
 (* ------------------------------------------------------------------ other sessions *)
 (* two sessions on one backend (Model/Faults.v [step2]): whatever the first session does - any commands,
